@@ -396,6 +396,52 @@ def _const_cells_over_paths(pro, returned, splitters) -> Dict[str, Dict[int, C.T
     return out
 
 
+def _const_scalars_over_paths(pro, names, splitters) -> Dict[str, C.Term]:
+    """Values of the given locals at the end of the prologue, merged over its paths like `_const_cells_over_paths`."""
+    per: Dict[str, List[tuple]] = {}
+    for env, stores, conds in pro:
+        if C.contradictory(conds):
+            continue
+        for nm in names:
+            v = C.to_poly(env.get(nm))
+            if v == C.atom(env.name_atom(nm)):
+                continue            # not bound on this path
+            per.setdefault(nm, []).append((conds, v))
+    out: Dict[str, C.Term] = {}
+    for nm, entries in per.items():
+        vals = list(dict.fromkeys(v for _, v in entries))
+        if len(vals) == 1:
+            out[nm] = vals[0]
+            continue
+        for c in splitters:
+            yes = list(dict.fromkeys(v for cs, v in entries if c in cs))
+            no = list(dict.fromkeys(v for cs, v in entries if C.mk_not(c) in cs))
+            rest = [v for cs, v in entries if c not in cs and C.mk_not(c) not in cs]
+            if len(yes) == 1 and len(no) == 1 and not rest:
+                out[nm] = C.atom(('ifexp', c, yes[0], no[0]))
+                break
+    return out
+
+
+def scalar_aux_pairs(fi: FuncInfo, pro, splitters) -> Dict[Tuple[str, str], Dict[str, C.Term]]:
+    """(lower, upper) pairs of plain locals that are passed as the auxiliary bounds of nearest-spike searches, bound in the
+    prologue only: {(lower name, upper name): {name: value at the end of the prologue, merged over its paths}}"""
+    params = {a.arg for a in fi.node.args.args}
+    top_loops = [s for s in fi.node.body if isinstance(s, (ast.While, ast.For))]
+    later = fi.node.body[fi.node.body.index(top_loops[0]):] if top_loops else []
+    rebound = {m.id for s in later for m in ast.walk(s) if isinstance(m, ast.Name) and isinstance(m.ctx, ast.Store)}
+    out: Dict[Tuple[str, str], Dict[str, C.Term]] = {}
+    for n in ast.walk(fi.node):
+        if isinstance(n, ast.Call) and isinstance(n.func, ast.Name) and 'min_dist' in n.func.id and len(n.args) in (5, 6) \
+                and isinstance(n.args[-2], ast.Name) and isinstance(n.args[-1], ast.Name):
+            pr = (n.args[-2].id, n.args[-1].id)
+            if pr not in out and not (set(pr) & rebound) and not (set(pr) & params):
+                vals = _const_scalars_over_paths(pro, pr, splitters)
+                if len(vals) == 2:
+                    out[pr] = vals
+    return out
+
+
 def spike_spec(eng: SiblingEngine, fi: FuncInfo, profile: bool) -> List[Ob]:
     """R02.3 tie zeros, R02.5 auxiliary spikes, R02.6 call roles of the nearest-spike helper."""
     obs: List[Ob] = []
@@ -441,6 +487,31 @@ def spike_spec(eng: SiblingEngine, fi: FuncInfo, profile: bool) -> List[Ob]:
                 else:
                     obs.append(violation('R02.5', t, fi.loc(), key=f"{fn}::aux-spikes::train{k}",
                                          detail=f"lower = {C.show(cells[0])}\nupper = {C.show(cells[1])}"))
+    # the same pair kept in two scalars (bound once, in the prologue) and passed to the nearest-spike searches by name
+    pair_of: Dict[Tuple[str, str], int] = {}       # spelling of (lower, upper) arguments -> train they belong to
+    for key, cells in aux.items():
+        if set(cells) == {0, 1}:
+            for k in (1, 2):
+                if ('n', base[k]) in C.atoms_of(cells[0]) or ('n', base[k]) in C.atoms_of(cells[1]):
+                    pair_of[(f"{key}[0]", f"{key}[1]")] = k
+    splitters = [C.mk_cmp('gt', N[1], C.ONE), C.mk_cmp('gt', N[2], C.ONE)]
+    scalar_vals = scalar_aux_pairs(fi, pro, splitters)
+    for pr, vals in scalar_vals.items():
+        for k in (1, 2):
+            gt1 = C.mk_cmp('gt', N[k], C.ONE)
+            last = C.sub(N[k], C.ONE)
+            lo = C.atom(('ifexp', gt1, C.mk_minmax('min', [ts, C.sub(C.scale(sub(k, C.ZERO), 2), sub(k, C.ONE))]), ts))
+            hi = C.atom(('ifexp', gt1, C.mk_minmax('max', [te, C.sub(C.scale(sub(k, last), 2), sub(k, C.sub(last, C.ONE)))]), te))
+            if ('n', base[k]) in C.atoms_of(vals[pr[0]]) or ('n', base[k]) in C.atoms_of(vals[pr[1]]):
+                found += 1
+                pair_of[pr] = k
+                t = (f"{fi.name} ({fi.path}): auxiliary spikes of train {k} are min(t_start, s[0]-(s[1]-s[0])) and "
+                     f"max(t_end, s[N-1]+(s[N-1]-s[N-2])) if N>1, else the edges")
+                if vals[pr[0]] == lo and vals[pr[1]] == hi:
+                    obs.append(ok('R02.5', t, fi.loc(), construct=f"{fn}::aux::{k}"))
+                else:
+                    obs.append(violation('R02.5', t, fi.loc(), key=f"{fn}::aux-spikes::train{k}",
+                                         detail=f"lower = {C.show(vals[pr[0]])}\nupper = {C.show(vals[pr[1]])}"))
     if found != 2:
         obs.append(inconclusive('R02.5', f"{fi.name}: two auxiliary-spike pairs found in the prologue", fi.loc(), f"{found}", construct=fn))
     # ---- R02.6 call roles: every nearest-spike call passes the OTHER train, its cursor (or 0 before the scan) and its aux pair
@@ -465,9 +536,8 @@ def spike_spec(eng: SiblingEngine, fi: FuncInfo, profile: bool) -> List[Ob]:
             oth = 3 - own
             other_arr = arr[oth]
             cur_o = roles.c1 if oth == 1 else roles.c2
-            auxname = [k for k in aux if k.endswith(str(oth))]
             good = isinstance(trn, ast.Name) and trn.id == other_arr and ast.unparse(start) in (cur_o, '0') and \
-                bool(auxname) and ast.unparse(lo) == f"{auxname[0]}[0]" and ast.unparse(hi) == f"{auxname[0]}[1]"
+                pair_of.get((ast.unparse(lo), ast.unparse(hi))) == oth
             if ln is not None:
                 good = good and ast.unparse(ln) == (roles.n1 if oth == 1 else roles.n2)
             if good:
